@@ -248,7 +248,7 @@ func drawC03(rt *rapid.T) C03Scenario {
 	}
 	mainAhead := false
 	sharedTouched := false // the base branch edited a file the feature branch also has: no rebase afterwards
-	ncommits := 1 + g.pick("ncommits", 6)
+	ncommits := 1 + g.pick("ncommits", detsim.Scale(6, 10))
 	for c := 0; c < ncommits; c++ {
 		roll := g.pick("actor", 10)
 		switch {
